@@ -55,6 +55,7 @@ class Cfg:
         if m2:
             raise MirError('more than one MIR function matches /%s/' % fn_re)
         end = mir.index('\n}\n', m.end())
+        self.mir = mir; self.start = m.start()
         self.name = mir[m.start():mir.index('(', m.start())][3:]
         self.body = mir[m.start():end]
         self.blocks = {}
@@ -102,6 +103,30 @@ class Cfg:
         if required and not out:
             raise MirError('no call site matching /%s/ in %s' % (callee_re, self.name))
         return out
+
+    def called_by_direct_callee(self, callee_re):
+        """Is a call matching `callee_re` made by an in-crate function that THIS function calls directly?  (Used to tell
+        'the check was moved into a helper' - cannot be decided intra-procedurally - from 'the check is gone'.)"""
+        names = set()
+        for c in self.calls.values():
+            mm = re.search(r'([A-Za-z_][A-Za-z_0-9]*)(?:::<[^()]*>)?$', c.callee.strip())
+            if mm:
+                names.add(mm.group(1))
+        for n in names:
+            for fm in re.finditer(r'^fn [^\n]*?\b' + re.escape(n) + r'\([^\n]*\{\n', self.mir, re.M):
+                if fm.start() == self.start:
+                    continue
+                try:
+                    end = self.mir.index('\n}\n', fm.end())
+                except ValueError:
+                    continue
+                body = self.mir[fm.end():end]
+                for line in body.split('\n'):
+                    if '-> [return:' in line or '-> bb' in line:
+                        parsed = _split_call(line.strip().split(' -> ')[0])
+                        if parsed and re.search(callee_re, parsed[1]):
+                            return n
+        return None
 
     def _follow(self, block, local, depth=8):
         """From `block`, follow straight-line code until `local` (or a copy / move / reference / Try::branch /
@@ -279,6 +304,34 @@ class Query:
         calls = self.cfg.find_calls(callee_re, required=False)
         edges = [(c.block, c.ret) for c in calls]
         self.must_pass(targets, edges, what, src=src)
+
+    def gate(self, effects, callee_re, kind, what, accept=None, after_err=None):
+        """Every path to an effect passes the ACCEPTING edge of a call matching `callee_re` (kind: result -> ok, bool -> true,
+        option -> some; `accept` overrides).  If `after_err` is given, nothing leads from a rejecting edge to an effect either.
+        A check that is no longer called at all (neither here nor in a function called directly from here) is a bypass:
+        every path to the effect avoids it -> FAILS.  A check that moved into a direct callee cannot be decided here -> error."""
+        cs = self.cfg.find_calls(callee_re, required=False)
+        if not cs:
+            moved = self.cfg.called_by_direct_callee(callee_re)
+            if moved:
+                self.errors.append('the call /%s/ moved into the callee %s: not decidable intra-procedurally' % (callee_re, moved)); return []
+            tb = [t.block if isinstance(t, Call) else t for t in effects]
+            bfs = self.cfg.bfs('bb0', tb, [])
+            self.n_queries += 1
+            if bfs is not None:
+                self.n_sat += 1
+                self.failures.append(what + ' (no call matching /%s/ is left in %s or in the functions it calls directly)' % (callee_re, self.cfg.name.strip()))
+                self.paths.append({'what': what, 'blocks': self._describe(bfs), 'bfs_confirmed': True})
+            return []
+        pos = accept or {'result': 'ok', 'bool': 'true', 'option': 'some'}[kind]
+        neg = {'ok': 'err', 'true': 'false', 'false': 'true', 'some': 'none', 'none': 'some', 'err': 'ok'}[pos]
+        fn = {'result': self.cfg.result_edges, 'bool': self.cfg.bool_edges, 'option': self.cfg.option_edges}[kind]
+        es = [fn(x) for x in cs]
+        self.must_pass(effects, [e[pos] for e in es], what)
+        if after_err:
+            for e in es:
+                self.must_not_reach(e[neg][1], effects, after_err)
+        return cs
 
     def must_not_reach(self, src, targets, what):
         """UNSAT( exists path src -> target )"""
